@@ -268,8 +268,7 @@ class NormalizeZScore(Command):
         y1 = end
         y2 = start
 
-        result = arr.copy()
-        result -= x1
+        result = arr - x1
         result *= y2 - y1
         result /= x2 - x1
         result += y1
